@@ -117,7 +117,26 @@ func (c *Ctx) mergeRoutines(d *dstate) []*mergeRoutine {
 		collect(f, 2)
 		out = append(out, &mergeRoutine{fn: f, outdated: cs})
 	}
-	return out
+	// a routine called by another routine is a part of it (replaceOutdated(list, remote) bool called by the function
+	// that appends when nothing was found): the caller is judged, with the part spliced in
+	var top []*mergeRoutine
+	for _, r := range out {
+		inner := false
+		for _, o := range out {
+			if o == r {
+				continue
+			}
+			for _, cl := range core.CallsIn(o.fn) {
+				if cl.Static == r.fn {
+					inner = true
+				}
+			}
+		}
+		if !inner {
+			top = append(top, r)
+		}
+	}
+	return top
 }
 
 // isRemote: v is read out of the routine's payload parameter (a slice of entry pointers) or, in a closure, out of a captured entry.
@@ -313,7 +332,22 @@ func (c *Ctx) ruleMergeTable(id string, d *dstate) {
 			}
 			ru.Check(badIter == "", key+"|iterations independent", c.where(f, f), fmt.Sprintf("%d variable(s) outlive an iteration, none reaches the local entry compared", len(carried)), badIter)
 		}
-		paths, err := c.pathsInlined(f, opts, isAny(d.isOutdated, d.isAdded, d.isRemoved), func(g *ssa.Function) bool { return c.writesStore(d, g, 2) })
+		// helpers that look the local copy up (localCopy(key) (entry, present, error)) are seen through: they hold the
+		// conditions that say whether an entry is present
+		readsStore := func(g *ssa.Function) bool {
+			if g.Package() != d.pkg || len(core.Loops(g)) > 0 {
+				return false
+			}
+			for _, b := range g.Blocks {
+				for _, in := range b.Instrs {
+					if v, ok := in.(ssa.Value); ok && c.isStoreRead(d, v) {
+						return true
+					}
+				}
+			}
+			return false
+		}
+		paths, err := c.pathsInlinedWorth(f, opts, isAny(d.isOutdated, d.isAdded, d.isRemoved), func(g *ssa.Function) bool { return c.writesStore(d, g, 2) }, readsStore)
 		if err != nil {
 			ru.Undecided(key+"|table", c.where(f, f), err.Error())
 			continue
@@ -321,6 +355,18 @@ func (c *Ctx) ruleMergeTable(id string, d *dstate) {
 		ru.Evals(len(paths))
 		rows := map[string]int{}
 		bad = ""
+		// a scan routine looks the local entry up by comparing a key field of stored elements with the remote's: seen on
+		// some path (in the routine or in a helper spliced in)
+		scanSeen := false
+		for _, p := range paths {
+			for _, cd := range p.Conds {
+				if bo, ok := p.Resolve(cd.V).(*ssa.BinOp); ok && (bo.Op == token.EQL || bo.Op == token.NEQ) {
+					if fl, fr := lastField(core.Term(bo.X)), lastField(core.Term(bo.Y)); fl != "" && fl == fr && d.isRemoteValueOn(p, f, p.Resolve(bo.X)) != d.isRemoteValueOn(p, f, p.Resolve(bo.Y)) {
+						scanSeen = true
+					}
+				}
+			}
+		}
 		for _, p := range paths {
 			if _, ok := p.Exit.(*ssa.Return); !ok && !p.Cut {
 				continue
@@ -337,6 +383,14 @@ func (c *Ctx) ruleMergeTable(id string, d *dstate) {
 			keyEqSeen := false
 			for _, cd := range p.Conds {
 				v := p.Resolve(cd.V)
+				// a negated condition (switch { case !present: … }): Cond.Val is already the value of the positive term
+				for {
+					u, isNot := v.(*ssa.UnOp)
+					if !isNot || u.Op != token.NOT {
+						break
+					}
+					v = p.Resolve(u.X)
+				}
 				// commaok lookup
 				if ex, ok := v.(*ssa.Extract); ok && ex.Index == 1 {
 					if lk, ok := ex.Tuple.(*ssa.Lookup); ok && lk.CommaOk {
@@ -386,7 +440,7 @@ func (c *Ctx) ruleMergeTable(id string, d *dstate) {
 					// key equality between a stored element and the remote (scan)
 					if bo.Op == token.EQL || bo.Op == token.NEQ {
 						lt, rt := core.Term(bo.X), core.Term(bo.Y)
-						if fl, fr := lastField(lt), lastField(rt); fl != "" && fl == fr && d.isRemoteValue(f, bo.X) != d.isRemoteValue(f, bo.Y) {
+						if fl, fr := lastField(lt), lastField(rt); fl != "" && fl == fr && d.isRemoteValueOn(p, f, p.Resolve(bo.X)) != d.isRemoteValueOn(p, f, p.Resolve(bo.Y)) {
 							keyEqSeen = true
 							eq := cd.Val // positive term is the equality
 							if eq {
@@ -396,16 +450,7 @@ func (c *Ctx) ruleMergeTable(id string, d *dstate) {
 					}
 				}
 			}
-			scanRoutine := false
-			for _, b := range f.Blocks {
-				if iff, ok := b.Instrs[len(b.Instrs)-1].(*ssa.If); ok {
-					if bo, ok := iff.Cond.(*ssa.BinOp); ok && (bo.Op == token.EQL || bo.Op == token.NEQ) {
-						if fl, fr := lastField(core.Term(bo.X)), lastField(core.Term(bo.Y)); fl != "" && fl == fr && d.isRemoteValue(f, bo.X) != d.isRemoteValue(f, bo.Y) {
-							scanRoutine = true
-						}
-					}
-				}
-			}
+			scanRoutine := scanSeen
 			if scanRoutine && !presentKnown {
 				// a scan that never met the remote's key on this path: absent
 				present, presentKnown = false, true
@@ -526,7 +571,7 @@ func (c *Ctx) ruleMergeTable(id string, d *dstate) {
 					cl := core.CallOf(x)
 					if cl.Static != nil && cl.Static.Package() == d.pkg && cl.Static != m {
 						// a package helper that reads or writes the store for this entry (get / set)
-						if c.writesStore(d, cl.Static, 2) || c.callsTransitively(cl.Static, 2, func(y *core.Call) bool { return y.Obj != nil && (y.Obj.Name() == "Match" || y.Obj.Name() == "Walk") }) {
+						if c.writesStore(d, cl.Static, 2) || c.isStoreRead(d, x) || c.callsTransitively(cl.Static, 2, func(y *core.Call) bool { return y.Obj != nil && (y.Obj.Name() == "Match" || y.Obj.Name() == "Walk") }) {
 							consults = append(consults, x)
 						}
 					}
